@@ -345,7 +345,9 @@ class C10(Property):
                 out.count("spill_in_" + s)
             out.key = repr(sorted((k, repr(v)) for k, v in spec.items()))
         if lim.get("retries") and spilled:
-            out.count("refused_then_retried_publications_with_spill")
+            out.count("refused_then_retried_publications_with_spill")  # informational: whether a re-used buffer is refused depends on where the previous entry lives
+        if spec.get("reuse_state") and spilled:
+            out.count("state_reusing_producers_with_spill")
         if spec.get("static_slot") and spilled and spec["limit"] < NBYTES:
             out.count("static_slot_spills")
         if spec["per_slot_limit"] and spilled:
@@ -360,7 +362,7 @@ class C10(Property):
 
     def coverage_gaps(self, counters, tier):
         need = ["pairs_run", "cases_with_spill", "received_items_compared", "per_slot_limit_spills", "masked_spills",
-                "refused_then_retried_publications_with_spill", "static_slot_spills", "spills_below_locations_with_special_characters",
+                "state_reusing_producers_with_spill", "static_slot_spills", "spills_below_locations_with_special_characters",
                 "spills_into_a_location_shared_with_a_finished_composition"] + ["spill_in_" + s for s in SLOTS]
         gaps = [f"{k} never observed" for k in need if not counters.get(k)]
         if counters.get("reference_failed", 0) > 0.02 * max(1, counters.get("pairs_run", 0)):
